@@ -12,6 +12,11 @@ a `diskfault`).  An operation counts when
   * the nearest frame on the call stack that belongs either to the harness (/verif) or to exactly_lib belongs to
     exactly_lib: what simulated children, stubs, observers and the harness do to the disk is not Exactly's doing.
 Every counted operation is numbered; number `nth` of the plan raises OSError(errno).  The fault is one-shot.
+
+`at` of the plan selects what is numbered: 'create' (above; the default), or - on the files that Exactly has opened for
+writing inside the world, which are then handed out wrapped in a thin proxy - 'write' (the n-th write: half of the data
+reaches the file, then the error: a short write on a full disk) or 'close' (the n-th close: the file is closed, then
+the error is reported, as a buffered file reports ENOSPC only when it is flushed).
 """
 import builtins
 import errno
@@ -26,10 +31,16 @@ _VERIF = os.path.dirname(os.path.dirname(os.path.abspath(__file__))) + os.sep
 _O_TMPFILE = getattr(os, 'O_TMPFILE', 0)
 
 
+_THIS = os.path.abspath(__file__)
+
+
 def _owned_by_exactly() -> bool:
-    f = sys._getframe(3)
+    f = sys._getframe(1)
     while f is not None:
         fn = f.f_code.co_filename
+        if fn == _THIS:
+            f = f.f_back
+            continue
         if fn.startswith(_VERIF):
             return False
         if (os.sep + 'exactly_lib' + os.sep) in fn:
@@ -38,34 +49,90 @@ def _owned_by_exactly() -> bool:
     return False
 
 
-def _count(op: str, path, creating) -> None:
+def _count(op: str, path, creating):
     sim = kernel.CUR
     if sim is None or sim.diskfault is None:
-        return
+        return None
     try:
         p = os.fspath(path)
     except TypeError:
-        return
+        return None
     if isinstance(p, bytes):
         p = os.fsdecode(p)
     ap = os.path.abspath(p)
     if not ap.startswith(sim.world.root + os.sep):
-        return
+        return None
     if not creating(ap):
-        return
+        return None
     if not _owned_by_exactly():
-        return
+        return None
     d = sim.diskfault
-    d['seen'] += 1
     rel = sim.world.norm(ap)
+    if d.get('at', 'create') != 'create':
+        return rel  # (owned creation inside the world: the caller wraps the file)
+    _numbered(sim, d, op, rel, p)
+    return None
+
+
+def _numbered(sim, d, op, rel, p, before_raising=None):
+    d['seen'] += 1
     d['ops'].append((op, rel))
     if d['seen'] == d['nth'] and not d['fired']:
         d['fired'] = True
         d['op'], d['path'] = op, rel
         d['seq'] = sim.ev('diskfault', op=op, path=rel, errno=d['errno'], n=d['seen'])
         sim.counts['diskfault_fired'] += 1
+        if before_raising is not None:
+            before_raising()
         code = getattr(errno, d['errno'])
         raise OSError(code, os.strerror(code), p)
+
+
+class _WrittenByExactly:
+    """A file that Exactly opened for writing inside the world: everything is delegated; write and close are numbered."""
+
+    def __init__(self, f, rel, path):
+        self.__dict__['_f'] = f
+        self.__dict__['_rel'] = rel
+        self.__dict__['_path'] = path
+
+    def _fault(self, op, before_raising=None):
+        sim = kernel.CUR
+        if sim is None or sim.diskfault is None or sim.diskfault.get('at') != op or not _owned_by_exactly():
+            return
+        _numbered(sim, sim.diskfault, op, self._rel, self._path, before_raising)
+
+    def write(self, data):
+        self._fault('write', lambda: (self._f.write(data[:len(data) // 2]), self._f.flush()))
+        return self._f.write(data)
+
+    def writelines(self, lines):
+        for ln in lines:
+            self.write(ln)
+
+    def close(self):
+        if not self._f.closed:
+            self._fault('close', self._f.close)
+        return self._f.close()
+
+    def __enter__(self):
+        return self
+
+    def __exit__(self, *exc):
+        self.close()
+        return False
+
+    def __iter__(self):
+        return iter(self._f)
+
+    def __next__(self):
+        return next(self._f)
+
+    def __getattr__(self, name):
+        return getattr(self._f, name)
+
+    def __setattr__(self, name, value):
+        setattr(self._f, name, value)
 
 
 def _new(ap):
@@ -73,9 +140,15 @@ def _new(ap):
 
 
 def _open(file, mode='r', *a, **k):
+    rel = None
     if not isinstance(file, int) and isinstance(mode, str) and any(c in mode for c in 'wxa+'):
-        _count('create', file, (lambda ap: True) if ('w' in mode or 'x' in mode) else _new)
-    return _REAL['open'](file, mode, *a, **k)
+        sim = kernel.CUR
+        wrapping = sim is not None and sim.diskfault is not None and sim.diskfault.get('at', 'create') != 'create'
+        rel = _count('create', file, (lambda ap: True) if (wrapping or 'w' in mode or 'x' in mode) else _new)
+    f = _REAL['open'](file, mode, *a, **k)
+    if rel is not None:
+        return _WrittenByExactly(f, rel, os.fspath(file))
+    return f
 
 
 def _mkdir(path, *a, **k):
